@@ -20,6 +20,8 @@ type compilationScope struct {
 	Instructions []byte
 	SymbolInit   map[string]bool
 	SourceMap    map[int]parser.Pos
+	loops        []*loop // loops of the enclosing function (restored by leaveScope)
+	loopIndex    int
 }
 
 // loop represents a loop construct that the compiler uses to track the current
@@ -397,6 +399,7 @@ func (c *Compiler) Compile(node parser.Node) error {
 		}
 
 		if err := c.Compile(node.Body); err != nil {
+			c.leaveScope() // restore the enclosing function's loops
 			return err
 		}
 
@@ -1090,7 +1093,12 @@ func (c *Compiler) enterScope() {
 	scope := compilationScope{
 		SymbolInit: make(map[string]bool),
 		SourceMap:  make(map[int]parser.Pos),
+		loops:      c.loops,
+		loopIndex:  c.loopIndex,
 	}
+	// break/continue must not reach a loop of the enclosing function
+	c.loops = nil
+	c.loopIndex = -1
 	c.scopes = append(c.scopes, scope)
 	c.scopeIndex++
 	c.symbolTable = c.symbolTable.Fork(false)
@@ -1105,6 +1113,8 @@ func (c *Compiler) leaveScope() (
 ) {
 	instructions = c.currentInstructions()
 	sourceMap = c.currentSourceMap()
+	c.loops = c.scopes[c.scopeIndex].loops
+	c.loopIndex = c.scopes[c.scopeIndex].loopIndex
 	c.scopes = c.scopes[:len(c.scopes)-1]
 	c.scopeIndex--
 	c.symbolTable = c.symbolTable.Parent(true)
